@@ -39,6 +39,17 @@ def edges_of(g):
     return sorted({(int(min(i, j)), int(max(i, j))) for i, j in zip(*np.nonzero(A))})
 
 
+def _label_points(G, nm):
+    """Points under one label; a label that covers no point cannot be selected (menpo has no graph without
+    vertices and says so), which is read as 'no points'."""
+    try:
+        return np.asarray(G.get_label(nm).points)
+    except ValueError as ex:
+        if "at least one vertex" in str(ex):
+            return np.zeros((0, G.points.shape[1]))
+        raise
+
+
 class Model(object):
     def __init__(self, points, edges, labels):
         self.points = points            # ndarray
@@ -149,7 +160,10 @@ class Labels(Machine):
         n, nl = op["n"], op["nl"]
         pts = gen.distinct_points(op["seed"], n, self.d, scale=10.0)
         edges = sorted({tuple(sorted(int(v) for v in g.randint(0, n, size=2))) for _ in range(int(g.randint(0, 2 * n)))})
-        edges = [e for e in edges if e[0] != e[1]]
+        if op["seed"] % 3 == 0 and any(e[0] == e[1] for e in edges):
+            self.ctx.probe("graph_with_self_loop")      # menpo's own labellers build them (closed one-point curves)
+        else:
+            edges = [e for e in edges if e[0] != e[1]]
         names = [NAMES[i] for i in g.permutation(len(NAMES))[:nl]]
         labels, covered = [], set()
         for nm in names:
@@ -231,18 +245,18 @@ class Labels(Machine):
             for nm, ix in m.labels:
                 if nm not in got:
                     continue
-                sub = G.get_label(nm)
-                ok = sub.points.shape == (len(ix), m.points.shape[1]) and np.array_equal(sub.points, m.points[list(ix)])
-                ctx.require(ok, "selection", what + "_label_points", lambda: "%s: label %r has points %r expected indices %r" % (what, nm, sub.points.tolist(), ix))
+                sp = _label_points(G, nm)
+                ok = sp.shape == (len(ix), m.points.shape[1]) and np.array_equal(sp, m.points[list(ix)])
+                ctx.require(ok, "selection", what + "_label_points", lambda: "%s: label %r has points %r expected indices %r" % (what, nm, sp.tolist(), ix))
                 covered[list(ix)] = True
             # every point carries at least one label (from the SUT's own view of its labels)
             cov = np.zeros(G.n_points, dtype=bool)
             for nm in got:
-                sp = G.get_label(nm).points
+                sp = _label_points(G, nm)
                 for p in sp:
                     cov |= np.all(G.points == p, axis=1)
             ctx.require(bool(cov.all()), "all_points_labelled", what, lambda: "%s: points %r carry no label" % (what, np.nonzero(~cov)[0].tolist()))
-            ctx.out(what, got, G.points, ge, [(nm, G.get_label(nm).points) for nm in got])
+            ctx.out(what, got, G.points, ge, [(nm, _label_points(G, nm)) for nm in got])
         else:
             ctx.out(what, G.points, ge)
         return True
@@ -324,6 +338,12 @@ class Labels(Machine):
             nm = free[op["k"] % len(free)]
         ix = tuple(int(i) for i in np.nonzero(g.rand(n) < 0.5)[0]) or (int(g.randint(n)),)
         arg = np.array(ix) if op["seed"] & 1 else list(ix)
+        empty = (op["seed"] >> 1) % 8 == 0
+        if empty:
+            # an empty index set is a legal argument: the label then covers no point
+            ix = ()
+            arg = [np.array([], dtype=int), [], range(0)][(op["seed"] >> 4) % 3]
+            self.ctx.probe("add_label_with_empty_index_set")
         if existing:
             labels = [(a, ix if a == nm else b) for a, b in m.labels]
         else:
@@ -344,6 +364,9 @@ class Labels(Machine):
         if not legal:
             self.ctx.fail("all_points_labelled", "add_label_replaced_label_and_left_points_unlabelled",
                           "add_label(%r, %r) on labels %r leaves points %r without any label" % (nm, ix, m.labels, sorted(set(range(n)) - covered)))
+            return
+        if empty:
+            self._compare(R, em, "add_label_empty", strict_order=not existing)
             return
         if self._compare(R, em, "add_label", strict_order=not existing) and not existing:
             self._put(R, em, op["dst"])
